@@ -207,6 +207,10 @@ func sanitize(d *dg.Design) (*dg.Design, map[string]int) {
 func vary(d *dg.Design, k int) *dg.Design {
 	c := d.Clone()
 	fixInts(c)
+	if k%4 == 1 && (k/4)%4 != 0 && c.BasePath == "" {
+		c.BasePath = "/api"
+	}
+	base := c.BasePath
 	for _, s := range c.Services {
 		for _, m := range s.Methods {
 			if m.HTTP == nil || len(m.HTTP.Routes) == 0 {
@@ -221,7 +225,21 @@ func vary(d *dg.Design, k int) *dg.Design {
 					}
 				}
 			case 1:
-				m.HTTP.Routes = append(rs, dg.Route{Verb: rs[0].Verb, Path: "//abs/" + s.Name + rs[0].Path})
+				// an absolute route, in each relation to the API base path: unrelated, under it,
+				// sharing only a string prefix with it, and every route of the endpoint absolute
+				// and under it
+				switch (k / 4) % 4 {
+				case 0:
+					m.HTTP.Routes = append(rs, dg.Route{Verb: rs[0].Verb, Path: "//abs/" + s.Name + rs[0].Path})
+				case 1:
+					m.HTTP.Routes = append(rs, dg.Route{Verb: rs[0].Verb, Path: "/" + base + "/abs-" + s.Name + rs[0].Path})
+				case 2:
+					m.HTTP.Routes = append(rs, dg.Route{Verb: rs[0].Verb, Path: "/" + base + "x/" + s.Name + rs[0].Path})
+				case 3:
+					for i := range rs {
+						rs[i].Path = "/" + base + "/" + s.Name + rs[i].Path
+					}
+				}
 			case 2:
 				if !strings.HasSuffix(rs[0].Path, "}") {
 					rs[0].Path += "/"
@@ -493,6 +511,10 @@ func coveringDesigns() []*dg.Design {
 		// a body object whose only attribute is flagged (its example is an empty map: the CLI
 		// generator used to panic on it, fix 47de3bf)
 		ms = append(ms, &dg.Method{Name: "only_flagged", Payload: obj(nogen(str("b"))), HTTP: &dg.HTTPMap{Routes: []dg.Route{rt("POST", "/only-flagged")}}})
+		// a literal operationId (no placeholder) on a method exposed through three routes, and on
+		// a single-route one
+		ms = append(ms, &dg.Method{Name: "literal_id", HTTP: &dg.HTTPMap{Routes: []dg.Route{rt("GET", "/lit"), rt("GET", "/lit/all"), rt("POST", "/lit")}}},
+			&dg.Method{Name: "literal_id_one", HTTP: &dg.HTTPMap{Routes: []dg.Route{rt("GET", "/lit-one")}}})
 		for _, v := range docVerbs {
 			ms = append(ms, &dg.Method{Name: "flagged_body_" + strings.ToLower(v), Payload: obj(rstr("id"), nogen(dg.Req("item", dg.Ref("MItem")))),
 				HTTP: &dg.HTTPMap{Routes: []dg.Route{rt(v, "/flagged-body/"+v+"/{id}")}, Body: &dg.BodySpec{Attr: "item"}}})
@@ -522,6 +544,31 @@ func coveringDesigns() []*dg.Design {
 				&dg.Field{Name: "m64", A: dg.A(dg.MapOf(dg.A(dg.Prim("String")), dg.Attr{T: dg.Prim("Int64"), V: enumInts}))}),
 				HTTP: &dg.HTTPMap{Routes: []dg.Route{rt("POST", "/used")}, Params: []dg.MapEntry{me("a32", "")}}}}}}})
 	}
+	// c12: absolute routes ("//...") in each relation to the API base path (OpenAPI 2 drops
+	// basePath as soon as one route is absolute or a file server exists, and must then list
+	// every key in full): all absolute routes under the base path; mixed (under it, equal to it,
+	// sharing only a string prefix, unrelated); with a service base path; next to a file server
+	{
+		abs := func(name string, routes ...dg.Route) *dg.Method {
+			return &dg.Method{Name: name, Payload: obj(rstr("id"), str("q")), HTTP: &dg.HTTPMap{Routes: routes, Params: []dg.MapEntry{me("q", "")}}}
+		}
+		add(&dg.Design{Name: "cover_abs_under_base", BasePath: "/api", Services: []*dg.Service{
+			{Name: "health", Methods: []*dg.Method{
+				{Name: "health", HTTP: &dg.HTTPMap{Routes: []dg.Route{rt("GET", "//api/health")}}},
+				abs("thing", rt("POST", "//api/v2/things/{id}"), rt("PUT", "/things/{id}")),
+				{Name: "rel", HTTP: &dg.HTTPMap{Routes: []dg.Route{rt("GET", "/rel")}}}}},
+			{Name: "based", BasePath: "/based", Methods: []*dg.Method{abs("b", rt("GET", "//api/based/abs/{id}"), rt("GET", "/b/{id}"))}}}})
+		add(&dg.Design{Name: "cover_abs_mixed", BasePath: "/api", Services: []*dg.Service{
+			{Name: "mixed", BasePath: "/m", Methods: []*dg.Method{
+				{Name: "under", HTTP: &dg.HTTPMap{Routes: []dg.Route{rt("GET", "//api/under")}}},
+				{Name: "equal", HTTP: &dg.HTTPMap{Routes: []dg.Route{rt("GET", "//api")}}},
+				{Name: "prefix", HTTP: &dg.HTTPMap{Routes: []dg.Route{rt("GET", "//apix/prefix")}}},
+				abs("unrelated", rt("DELETE", "//other/{id}"), rt("DELETE", "/rel/{id}")),
+				{Name: "twice", HTTP: &dg.HTTPMap{Routes: []dg.Route{rt("GET", "//api/api/twice")}}}}}}})
+		add(&dg.Design{Name: "cover_abs_files", BasePath: "/api/v1", Services: []*dg.Service{
+			{Name: "af", Methods: []*dg.Method{abs("a", rt("GET", "//api/v1/a/{id}")), {Name: "r", HTTP: &dg.HTTPMap{Routes: []dg.Route{rt("GET", "/r")}}}},
+				Files: []dg.FileServer{{Path: "/file.json", File: "public/file.json"}}}}})
+	}
 	return ds
 }
 
@@ -536,9 +583,9 @@ func coveringMeta(d *dg.Design) *MetaSpec {
 		API:     [][]string{{"openapi:tag:Top"}, {"openapi:tag:Top:desc", "top"}, {"openapi:extension:x-api", `{"a":[1,2]}`}},
 		Service: map[string][][]string{"hiddenA": {ng}, "shown": {{"openapi:tag:Svc"}, {"openapi:summary", "svc"}}},
 		HTTPSvc: map[string][][]string{"hiddenB": {sg}},
-		Method: map[string][][]string{"shown.gone1": {ng}, "shown.kept": {{"openapi:summary", "kept"}, {"openapi:deprecated", "true"}, {"openapi:generate", "true"}},
+		Method: map[string][][]string{"shown.literal_id": {{"openapi:operationId", "listThings"}}, "shown.gone1": {ng}, "shown.kept": {{"openapi:summary", "kept"}, {"openapi:deprecated", "true"}, {"openapi:generate", "true"}},
 			"shown.flagged_body": {{"openapi:operationId", "{service}-{method}(-{routeIndex})"}}},
-		HTTPEp: map[string][][]string{"shown.gone2": {sg}, "shown.prim_flagged": {{"openapi:extension:x-op", `{"n":1}`}}},
+		HTTPEp: map[string][][]string{"shown.literal_id_one": {{"openapi:operationId", "oneThing"}}, "shown.gone2": {sg}, "shown.prim_flagged": {{"openapi:extension:x-op", `{"n":1}`}}},
 		File:   map[string][][]string{"shown#0": {ng}, "shown#1": {{"openapi:summary", "a file"}, {"openapi:tag:Files"}}},
 	}
 }
